@@ -68,6 +68,30 @@ class Obligation:
         return f"<obl {self.id}>"
 
 
+_hq_cache = {}
+
+
+def _has_quantifier(t):
+    i = t.get_id()
+    if i in _hq_cache:
+        return _hq_cache[i]
+    stack = [t]
+    seen = set()
+    r = False
+    while stack:
+        x = stack.pop()
+        if x.get_id() in seen:
+            continue
+        seen.add(x.get_id())
+        if z3.is_quantifier(x):
+            r = True
+            break
+        if z3.is_app(x):
+            stack.extend(x.children())
+    _hq_cache[i] = r
+    return r
+
+
 def split_goal(goal, limit=48):
     """skolemise universal goals and split conjunctions: one small query per conjunct"""
     out = []
@@ -216,7 +240,7 @@ class Iter:
 
 
 class Options:
-    def __init__(self, fault_mode=False, callee_clauses=None, float_mode=False, feas_timeout=2000,
+    def __init__(self, fault_mode=False, callee_clauses=None, float_mode=False, feas_timeout=1000,
                  extra=None):
         self.fault_mode = fault_mode          # callbacks / interface calls may raise (C17)
         self.callee_clauses = callee_clauses  # None: assume all callee clauses; dict key -> set of clause names
@@ -277,9 +301,13 @@ class Run:
         return z3.ForAll(vars_, z3.Implies(guard, fact))
 
     def feasible(self, cond):
+        """is the branch possibly reachable?  Decided on the quantifier-free part of the path condition only
+        (an over-approximation: a branch wrongly kept only adds obligations with contradictory hypotheses)"""
         s = z3.Solver()
         s.set('timeout', self.opts.feas_timeout)
-        s.add(*self.pc)
+        for h in self.pc:
+            if not _has_quantifier(h):
+                s.add(h)
         s.add(cond)
         return s.check() != z3.unsat
 
@@ -524,10 +552,10 @@ class Run:
             self.oblige(f"{fkey}/loop{ordinal}/established/{cname}", self.clause(cname, f, lc), kind='loop_established',
                         clause=cname, function=fkey)
         # havoc
-        roots = lspec.modifies if lspec.modifies is not None else modified_roots(s)
+        roots = lspec.modifies if lspec.modifies is not None else modified_roots(s, self)
         for r in roots:
             self.havoc_root(r)
-        for cn in COUNTER_NAMES:
+        for cn in (lspec.counters if lspec.counters is not None else COUNTER_NAMES):
             self.counters[cn] = z3.Int(fresh_name('cnt_' + cn.replace('.', '_')))
         if it.kind == 'seq':
             i = z3.Int(fresh_name('it'))
@@ -1312,6 +1340,8 @@ class Run:
         """modular call: check the callee's precondition, havoc its frame, assume its postcondition"""
         if self.fspec is not None and fs.key in self.fspec.callee_variants:
             fs = FUNCS[self.fspec.callee_variants[fs.key]]
+        elif fs.key + '#list' in FUNCS and any(isinstance(v, (PyList, SList)) for v in list(args) + list(kwargs.values())):
+            fs = FUNCS[fs.key + '#list']
         self.called.add(fs.key)
         if fs.inline:
             fdef, mod = locate(fs)
@@ -1368,6 +1398,8 @@ class Run:
         for cn, f in fs.counts.items():
             self.bump(cn, _term(f(c)))
         self.last_gout = gout
+        self.events.append({'kind': 'call', 'callee': fs.key, 'args': a0, 'res': res, 'gout': gout, 'recv_old': old,
+                            'line': self.cur_line})
         if fs.ghost_update is not None and recv is not None:
             for g, term in fs.ghost_update(c).items():
                 gt = recv.spec().all_fields()[g]
@@ -1665,7 +1697,31 @@ def ite_value(c, a, b):
     raise Unsupported("conditional expression of differently typed values inside a comprehension")
 
 
-def modified_roots(loop_node):
+MUTATING_METHODS = {'append', 'remove', 'add', 'update', 'pop', 'popleft', 'clear', 'discard', 'extend', 'insert',
+                    'setdefault', 'popitem', 'sort', 'reverse', 'appendleft'}
+
+
+def _call_may_mutate(run, call):
+    """does `recv.method(...)` possibly mutate its receiver?  contract methods: per their frame; built-in containers:
+    by method name; unknown: yes"""
+    meth = call.func.attr
+    recv = call.func.value
+    if run is not None and isinstance(recv, ast.Attribute) and isinstance(recv.value, ast.Name) and recv.value.id == 'self' \
+            and run.self_obj is not None:
+        f = run.self_obj.getfield(recv.attr)
+        if isinstance(f, SObj):
+            key = run.resolve_method(f.cls, meth)
+            if key is not None:
+                fs = FUNCS[key]
+                return not (fs.pure or fs.modifies == [])
+        if isinstance(f, SFn):
+            return False
+    return meth in MUTATING_METHODS or not (isinstance(recv, ast.Name) or isinstance(recv, ast.Attribute)) or \
+        (meth not in ('get', 'copy', 'values', 'items', 'keys', 'impute', 'get_data', 'predict_one', 'predict_proba_one',
+                      'traverse', 'branch_no', 'next'))
+
+
+def modified_roots(loop_node, run=None):
     """names / self.fields syntactically assigned or mutated in a loop body (conservative havoc set)"""
     roots = set()
 
@@ -1703,7 +1759,7 @@ def modified_roots(loop_node):
         elif isinstance(n, ast.Call) and isinstance(n.func, ast.Attribute):
             # method call: receiver may be mutated
             r = root_of(n.func.value)
-            if r and r != 'self':
+            if r and r != 'self' and _call_may_mutate(run, n):
                 roots.add(r)
         elif isinstance(n, ast.ExceptHandler) and n.name:
             roots.add(n.name)
@@ -1805,8 +1861,17 @@ def bind_contract_args(run, fs, fdef, mod, args, kwargs):
         skip = fs.kind in ('method', 'init', 'property')
         if fs.kind == 'static':
             skip = False
-        return bind_args(run, fdef, args, kwargs, mod, skip_self=skip)
-    names = list(fs.params.keys())
-    out = dict(zip(names, args))
-    out.update(kwargs)
+        out = bind_args(run, fdef, args, kwargs, mod, skip_self=skip)
+    else:
+        names = list(fs.params.keys())
+        out = dict(zip(names, args))
+        out.update(kwargs)
+    for p, t in fs.params.items():
+        v = out.get(p)
+        if isinstance(v, PyList) and isinstance(t, TList):
+            out[p] = run.make_list(v.items, t.e)
+        elif isinstance(v, PyEmptyDict) and isinstance(t, TDict):
+            out[p] = SDict(t, t.empty())
+        elif v is NONE and t is TVal:
+            out[p] = SVal(pack(NONE, TVal))
     return out
